@@ -18,7 +18,16 @@ CLAIM = {
              "`commodity` declarations with comment / note / alias / format sub-directives, `include`, `apply tag`, `end apply "
              "tag`, top-level comments; C05_format_parse / C05_roundtrip / C05_idempotent (C05_format_fixed): the entry loop of "
              "parse_ledger composed with FormatOptions::format gives parse(format t) = parse t and format(format t) = format t "
-             "for every text whose parsed entries are wfEntry and plainEntry. The value-expression round trip is "
+             "for every text whose parsed entries are wfEntry and plainEntry; and C05_image / C05_roundtrip_text / "
+             "C05_idempotent_text: EVERY entry the parser returns satisfies those predicates (up to canonEntry, which only drops the "
+             "grouping tag of a number below 1000), hence for EVERY text that parses, with no hypothesis on the parsed entries, the "
+             "formatted text parses to exactly the same entries and is a fixed point of format - under two decidable hypotheses on "
+             "the TEXT, both shown necessary by kernel-evaluated witnesses (C05_image_hypotheses_needed): asciiSpaceOnly (no white "
+             "space other than blank, tab, LF, CR - exactly the class of known findings F27 / F28) and parensClosed (every `(` "
+             "has a `)` later in the text; an unclosed `(` at payee position is outside the context-free predicate wfPayee, the "
+             "round trip itself is unaffected). The two printer models (Okane.Unparse used here, Okane.Print used by C19) are "
+             "proved equal for years <= 9999 and one-column clear marks (printEntry_agree), so the text C19's layout theorems "
+             "describe is the text whose read-back is proved here (C05_C19_format). The value-expression round trip is "
              "ExprParse.parse_print_follow (precedence and left associativity, see C08); numbers use the literal theorems of C07. "
              "C05_decl_merge: adjacent comment / note sub-directives re-read merged and the printed text is still a fixed point of "
              "format. The character classes of the parser model are proved equal to the sets spelled out in the Rust source now "
@@ -27,8 +36,7 @@ CLAIM = {
              "a negation; the parser never builds such a tree; C05_entry_full_false), not_C05_image_full / "
              "not_C05_roundtrip_full / not_C05_idempotent_full (known findings F27 / F28: Unicode white space the parser does not "
              "treat as blank), not_C05_eof_full (account + one blank at end of file, outside the grammar). NOT carried by "
-             "theorems, only by the correspondence stream and the oracles on the real code: the image property (every tree the "
-             "parser returns is wfEntry and plainEntry up to canonEntry - evaluated by the driver on every accepted text) and "
+             "theorems, only by the correspondence stream and the oracles on the real code: "
              "the acceptance of the documented grammar (oracle: every grammar-derived text, also with its last line ended by "
              "end of file, is accepted by the real parser). The model parser agrees with the real one on trees, entry spans, "
              "error offsets/line_start and formatted output on every generated text."),
@@ -56,7 +64,12 @@ THEOREMS = ["Okane.ParamsTie.nonCommodityChars_tie", "Okane.ParamsTie.isCommodit
             "Okane.Unparse.entryRT_account", "Okane.Unparse.entryRT_commodity", "Okane.Unparse.amount_rt",
             "Okane.Unparse.posting_rt_plain", "Okane.Unparse.transaction_rt_plain", "Okane.Unparse.entryRT_txn_plain",
             "Okane.Unparse.lot_rt", "Okane.Unparse.cost_rt", "Okane.Unparse.blockMetadata_rt", "Okane.Unparse.date_rt",
-            "Okane.ExprParse.parse_print_follow"]
+            "Okane.ExprParse.parse_print_follow",
+            "Okane.C05.C05_image", "Okane.C05.C05_roundtrip_text", "Okane.C05.C05_idempotent_text",
+            "Okane.C05.C05_image_hypotheses_needed", "Okane.C05Image.printEntry_canon", "Okane.C05Image.not_image_unconditional",
+            "Okane.PrintersAgree.printEntry_agree", "Okane.PrintersAgree.formatEntries_agree_std",
+            "Okane.PrintersAgree.C05_for_Print", "Okane.PrintersAgree.C05_C19_format"]
+EXTRA_IMPORTS = ["Okane.Props.C05Text", "Okane.Lemmas.PrintersAgreeC05"]
 
 # ------------------------------------------------------------------------------------------------
 # alphabets
@@ -644,7 +657,7 @@ def run(chk):
         "no `;`; accounts and payees do not start with a clear mark; negative literals are allowed where the parser's number "
         "token allows them; `commodity-format` (referenced but not defined) is `sp+ \"format\" sp+ amount-expr new-line`",
     ]
-    if not standard_prologue(chk, THEOREMS):
+    if not standard_prologue(chk, THEOREMS, imports=EXTRA_IMPORTS):
         return
     rng = chk.rng
     n_gram = 3000 if chk.tier == "quick" else 60000
